@@ -91,6 +91,13 @@ Proof.
     destruct (lookup ty_egf cust) as [cp|]; [|reflexivity]. destruct (c_ratio cp =? 0); reflexivity.
 Qed.
 
+(* checkProposalMsgs compares the type URLs of the unpacked messages: M_Gov.check_msgs *)
+Theorem gen_mixed_compare : forall ms, check_msgs_sh gen_shape ms = check_msgs ms.
+Proof. reflexivity. Qed.
+
+Theorem gen_mixed_compare_fact : sh_mixed_compare gen_shape = CmpTypeURL /\ sh_mixed_fold gen_shape = true.
+Proof. split; reflexivity. Qed.
+
 (* ------------------------------------------------------------------ the facts matter *)
 Definition with_exec (sh : gov_shape) (plain : bool) (cache_in_loop write_in_loop write_ok : Z) (before on_cache : bool) : gov_shape :=
   {| sh_eb_order := sh_eb_order sh; sh_payout_guard := sh_payout_guard sh;
@@ -104,7 +111,8 @@ Definition with_exec (sh : gov_shape) (plain : bool) (cache_in_loop write_in_loo
      sh_act_inactive_remove_unconditional := sh_act_inactive_remove_unconditional sh;
      sh_act_inactive_key_deposit_end := sh_act_inactive_key_deposit_end sh;
      sh_act_active_key_voting_end := sh_act_active_key_voting_end sh;
-     sh_egf_key := sh_egf_key sh; sh_type_key := sh_type_key sh; sh_tally_checks := sh_tally_checks sh |}.
+     sh_egf_key := sh_egf_key sh; sh_type_key := sh_type_key sh; sh_tally_checks := sh_tally_checks sh;
+     sh_mixed_compare := sh_mixed_compare sh; sh_mixed_fold := sh_mixed_fold sh |}.
 
 Definition m_ok : msg := {| m_type := 4; m_spend := []; m_act := AOk 7 |}.
 Definition m_bad : msg := {| m_type := 4; m_spend := []; m_act := AFail |}.
